@@ -372,7 +372,11 @@ def _job(i):
     """worker: evaluate variant i (fork start method: _G is inherited)"""
     pid, prog, jobs, base_keys = _G["pid"], _G["prog"], _G["jobs"], _G["base_keys"]
     name, suffix, edit, expect, rule = jobs[i]
-    p2 = variant(prog, suffix, edit)
+    if isinstance(edit, str):
+        rel = [r for r in prog.sources if r.endswith(suffix)][0]
+        p2 = prog.with_source(rel, edit, label="generic-mutant")
+    else:
+        p2 = variant(prog, suffix, edit)
     if p2 is None:
         return (i, "skipped", None, None)
     rep2, err = run_variant(pid, p2)
@@ -391,6 +395,22 @@ def run(pid: str, prog: Program, rep, seed: int = 0) -> None:
     for name, t in SILENT_GLOBAL:
         for suffix in files:
             jobs.append((f"{name} on {suffix}", suffix, t, "silent", None))
+    # informational: a seeded sample of generic single-point mutants (comparison flips, operator swaps, +1 on constants,
+    # negated conditions, statement deletion, shortened ranges) of the property's files
+    n_curated = len(jobs)
+    try:
+        import random
+        from .sweep import mutants_of
+        gen = []
+        for suffix in files:
+            for rel, src in prog.sources.items():
+                if rel.endswith(suffix):
+                    for qual, line, kind, orig, new_src in mutants_of(src):
+                        gen.append((f"generic {kind} in {qual}: {orig[:60]}", suffix, new_src, "info", None))
+        random.Random(seed).shuffle(gen)
+        jobs += gen[: int(os.environ.get("VERIF_GENERIC_SAMPLE", "120"))]
+    except Exception as ex:  # the information is optional
+        rep.notes.append(f"generic mutation sample skipped: {type(ex).__name__}: {ex}")
     _G.update(pid=pid, prog=prog, jobs=jobs, base_keys=base_keys)
     nproc = min(int(os.environ.get("VERIF_JOBS", "16")), max(1, len(jobs)))
     results = []
@@ -413,6 +433,11 @@ def run(pid: str, prog: Program, rep, seed: int = 0) -> None:
                 print(f"SELFTEST-NOTE property={pid} variant '{name}' skipped: construct not present on this tree")
             details.append({"variant": name, "result": "skipped (construct not present on this tree)"})
             continue
+        if expect == "info":
+            g = tally.setdefault("generic", {"n": 0, "reported": 0, "undecided": 0, "silent": 0})
+            g["n"] += 1
+            g["reported" if new else ("undecided" if err else "silent")] += 1
+            continue
         if expect == "fire":
             tally["must_fire"] += 1
             hit = [v for v in new if rule is None or v[0].startswith(rule)]
@@ -433,6 +458,9 @@ def run(pid: str, prog: Program, rep, seed: int = 0) -> None:
                 res = ("undecided: " + err[:200]) if err else f"false alarm {new[0][2]}"
                 tally["mismatches"].append(f"must-stay-silent '{name}': {res}")
                 details.append({"variant": name, "result": res})
+    if "generic" in tally:
+        rep.extra["generic_mutation_sample"] = dict(tally.pop("generic"), note="informational: single-point mutants of the property's files, seeded by VERIF_SEED; "
+                                                    "silent mutants include equivalent ones and ones irrelevant to this property")
     rep.extra["selftest"] = {k: v for k, v in tally.items()}
     rep.extra["selftest_details"] = details[:80]
     for mm in tally["mismatches"]:
